@@ -78,15 +78,15 @@ func runC20(c *Ctx) {
 	}
 
 	pairs := []texCodec{
-		{"JsInt64", "JsInt64.MarshalJSON", "(*JsInt64).UnmarshalJSON", []string{"strconv.FormatInt(_,10)"}, []string{"strconv.Atoi(_)|strconv.ParseInt(_,10,64)"}},
-		{"JsUInt64", "JsUInt64.MarshalJSON", "(*JsUInt64).UnmarshalJSON", []string{"strconv.FormatUint(_,10)"}, []string{"strconv.ParseUint(_,10,64)"}},
-		{"UnixStamp", "UnixStamp.MarshalJSON", "(*UnixStamp).UnmarshalJSON", []string{"strconv.FormatInt(_,10)"}, []string{"strconv.Atoi(_)|strconv.ParseInt(_,10,64)"}},
-		{"JsUnixTime", "JsUnixTime.MarshalJSON", "(*JsUnixTime).UnmarshalJSON", []string{"(time.Time).Unix(_)", "strconv.FormatInt(_,10)"}, []string{"strconv.Atoi(_)|strconv.ParseInt(_,10,64)", "time.Unix(_,0)"}},
-		{"JsNanoTime", "JsNanoTime.MarshalJSON", "(*JsNanoTime).UnmarshalJSON", []string{"(time.Time).UnixNano(_)", "strconv.FormatInt(_,10)"}, []string{"strconv.Atoi(_)|strconv.ParseInt(_,10,64)", "time.Unix(0,_)"}},
+		{"JsInt64", "JsInt64.MarshalJSON", "(*JsInt64).UnmarshalJSON", []string{"strconv.FormatInt(_,10)|strconv.AppendInt(_,_,10)"}, []string{"strconv.Atoi(_)|strconv.ParseInt(_,10,64)"}},
+		{"JsUInt64", "JsUInt64.MarshalJSON", "(*JsUInt64).UnmarshalJSON", []string{"strconv.FormatUint(_,10)|strconv.AppendUint(_,_,10)"}, []string{"strconv.ParseUint(_,10,64)"}},
+		{"UnixStamp", "UnixStamp.MarshalJSON", "(*UnixStamp).UnmarshalJSON", []string{"strconv.FormatInt(_,10)|strconv.AppendInt(_,_,10)"}, []string{"strconv.Atoi(_)|strconv.ParseInt(_,10,64)"}},
+		{"JsUnixTime", "JsUnixTime.MarshalJSON", "(*JsUnixTime).UnmarshalJSON", []string{"(time.Time).Unix(_)", "strconv.FormatInt(_,10)|strconv.AppendInt(_,_,10)"}, []string{"strconv.Atoi(_)|strconv.ParseInt(_,10,64)", "time.Unix(_,0)"}},
+		{"JsNanoTime", "JsNanoTime.MarshalJSON", "(*JsNanoTime).UnmarshalJSON", []string{"(time.Time).UnixNano(_)", "strconv.FormatInt(_,10)|strconv.AppendInt(_,_,10)"}, []string{"strconv.Atoi(_)|strconv.ParseInt(_,10,64)", "time.Unix(0,_)"}},
 		{"Duration", "Duration.MarshalJSON", "(*Duration).UnmarshalJSON", []string{"(time.Duration).String(_)"}, []string{"time.ParseDuration(_)"}},
 		{"Duration TOML", "Duration.MarshalJSON", "(*Duration).UnmarshalTOML", []string{"(time.Duration).String(_)"}, []string{"time.ParseDuration(_)"}},
-		{"Base64Bytes", "Base64Bytes.Value", "(*Base64Bytes).Scan", []string{"(*encoding/base64.Encoding).EncodeToString(RawStdEncoding,_)"}, []string{"(*encoding/base64.Encoding).DecodeString(RawStdEncoding,_)"}},
-		{"JsByte", "JsByte.MarshalJSON", "(*JsByte).UnmarshalJSON", []string{"strconv.Itoa(_)", "(*bytes.Buffer).WriteString(_,\"/\")"}, []string{"strings.Split(_,\"/\")", "strconv.Atoi(_)|strconv.ParseInt(_,10,64)"}},
+		{"Base64Bytes", "Base64Bytes.Value", "(*Base64Bytes).Scan", []string{"(*encoding/base64.Encoding).EncodeToString(RawStdEncoding,_)"}, []string{"(*encoding/base64.Encoding).DecodeString(RawStdEncoding,_)|(*encoding/base64.Encoding).Decode(RawStdEncoding,_,_)"}},
+		{"JsByte", "JsByte.MarshalJSON", "(*JsByte).UnmarshalJSON", []string{"strconv.Itoa(_)|strconv.FormatUint(_,10)|strconv.FormatInt(_,10)|strconv.AppendUint(_,_,10)|strconv.AppendInt(_,_,10)", "(*bytes.Buffer).WriteString(_,\"/\")"}, []string{"strings.Split(_,\"/\")", "strconv.Atoi(_)|strconv.ParseInt(_,10,64)"}},
 		{"hex16 int64", "I64Hex", "HexI64", []string{"strconv.FormatInt(_,16)"}, []string{"strconv.ParseInt(_,16,64)"}},
 		{"hex16 uint64", "U64Hex", "HexU64", []string{"strconv.FormatUint(_,16)"}, []string{"strconv.ParseUint(_,16,64)"}},
 		{"hex32 int64", "I64HexV2", "HexI64V2", []string{"strconv.FormatInt(_,32)"}, []string{"strconv.ParseInt(_,32,64)"}},
@@ -95,7 +95,7 @@ func runC20(c *Ctx) {
 		{"Unix2Time", "Unix2Time.Value", "(*Unix2Time).Scan", []string{"(time.Time).Unix(_)"}, []string{"time.Unix(_,0)"}},
 		{"UnixStamp sql", "UnixStamp.Value", "(*UnixStamp).Scan", []string{"time.Unix(_,0)"}, []string{"(time.Time).Unix(_)"}},
 		{"SQLTime2Unix", "SQLTime2Unix.Value", "(*SQLTime2Unix).Scan", []string{"time.Unix(_,0)"}, []string{"(time.Time).Unix(_)"}},
-		{"JsByte text", "JsByte.ToString", "(*JsByte).FromString", []string{"strconv.Itoa(_)", "(*bytes.Buffer).WriteString(_,\"/\")"}, []string{"strings.Split(_,\"/\")", "strconv.Atoi(_)|strconv.ParseInt(_,10,64)"}},
+		{"JsByte text", "JsByte.ToString", "(*JsByte).FromString", []string{"strconv.Itoa(_)|strconv.FormatUint(_,10)|strconv.FormatInt(_,10)|strconv.AppendUint(_,_,10)|strconv.AppendInt(_,_,10)", "(*bytes.Buffer).WriteString(_,\"/\")"}, []string{"strings.Split(_,\"/\")", "strconv.Atoi(_)|strconv.ParseInt(_,10,64)"}},
 	}
 	has := func(set map[string]bool, alt string) bool {
 		for _, a := range strings.Split(alt, "|") {
@@ -164,7 +164,7 @@ func runC20(c *Ctx) {
 			}
 		}
 		for s := range es {
-			for _, fam := range []string{"strconv.FormatInt(", "strconv.FormatUint("} {
+			for _, fam := range []string{"strconv.FormatInt(", "strconv.FormatUint(", "strconv.AppendInt(", "strconv.AppendUint("} {
 				if strings.HasPrefix(s, fam) {
 					okFam := false
 					for _, w := range p.encCalls {
@@ -515,7 +515,7 @@ func (c *Ctx) checkValueSource(dec *ssa.Function, name string, cfg TraceConfig) 
 			// the parser's own (value, error) pair handed back unchanged is a success path too
 			direct := false
 			for _, e := range t.Events {
-				if e.Kind == EvCall && e.Res != nil && e.Res.Kind == KTuple && len(e.Res.Args) == 2 && e.Res.Args[1].Key() == er.Key() && primary(e.callName()) {
+				if e.Kind == EvCall && e.Res != nil && e.Res.Kind == KTuple && len(e.Res.Args) == 2 && e.Res.Args[1].Key() == er.Key() && primary(e.callName()) && len(t.Ret) == 2 && t.Ret[0].Key() == e.Res.Args[0].Key() {
 					direct = true
 				}
 			}
@@ -577,6 +577,23 @@ func (c *Ctx) checkValueSource(dec *ssa.Function, name string, cfg TraceConfig) 
 		} else if len(t.Ret) > 1 {
 			vals = append(vals, t.Ret[0])
 		}
+		// base64 Decode (not DecodeString) fills a buffer sized for the worst case: only its first n bytes are the value
+		for _, e := range t.Events {
+			if e.Kind == EvCall && e.callName() == "(*encoding/base64.Encoding).Decode" && e.Res != nil && e.Res.Kind == KTuple && len(e.Args) >= 2 {
+				cut := false
+				for _, v := range vals {
+					v.walk(func(x *Sym) {
+						if x.Kind == KOp && x.Name == "slice" && len(x.Args) >= 3 && x.Args[0].root() != nil && e.Args[1].root() != nil && x.Args[0].root().Key() == e.Args[1].root().Key() && x.Args[2].Key() == e.Res.Args[0].Key() {
+							cut = true
+						}
+					})
+				}
+				if !cut && ok {
+					ok = false
+					c.violated("C20.value-source", cons, e.Pos, "the buffer filled by base64 Decode is stored without being cut to the number of bytes decoded: input with ignored characters (line breaks) decodes with trailing zero bytes", c.witness(t, len(t.Events)-1)...)
+				}
+			}
+		}
 		for _, v := range vals {
 			n++
 			sv := v.strip()
@@ -625,7 +642,49 @@ func (c *Ctx) checkQuoteWrap(fn *ssa.Function, cons string, cfg TraceConfig) {
 			}
 			return found
 		}
-		good := len(parts) == 3 && isQuoteLit(parts[0]) && isQuoteLit(parts[2]) && !isQuoteLit(parts[1]) && r != nil && r.Kind == KAlloc
+		good := len(parts) == 3 && isQuoteLit(parts[0]) && isQuoteLit(parts[2]) && !isQuoteLit(parts[1]) && r != nil && r.root() != nil && r.root().Kind == KAlloc
+		// form (b): append(strconv.AppendInt/AppendUint(append(fresh, '"'), v, 10), '"')
+		if !good && len(parts) == 1 && isQuoteLit(parts[0]) && r != nil {
+			for _, e := range t.Events {
+				if e.Kind == EvCall && e.Res != nil && e.Res.Key() == r.Key() && (e.callName() == "strconv.AppendInt" || e.callName() == "strconv.AppendUint" || e.callName() == "strconv.AppendQuote") && len(e.Args) >= 1 {
+					in := e.Args[0]
+					if in.Kind == KOp && in.Name == "append" && len(in.Args) == 2 && isQuoteLit(in.Args[1]) && in.Args[0].root() != nil && in.Args[0].root().Kind == KAlloc {
+						good = true
+					}
+				}
+			}
+		}
+		// form (c): out := make([]byte, len(text)+2); out[0] = '"'; copy(out[1:], text); out[len(out)-1] = '"'
+		if !good {
+			out := t.Ret[0]
+			if out.Kind == KAlloc && len(out.Args) == 2 {
+				ln := lf(out.Args[0])
+				first, last, body := false, false, false
+				for _, e := range t.Events {
+					if e.Kind == EvStore && e.Addr.Kind == KIndexAddr && e.Addr.Args[0].Key() == out.Key() {
+						if v, isC := e.Val.intConst(); isC && v == '"' {
+							if isIntConst(e.Addr.Args[1], 0) {
+								first = true
+							}
+							if lf(e.Addr.Args[1]).equal(ln.add(lfConst(1), -1)) {
+								last = true
+							}
+						}
+					}
+					if e.Kind == EvCall && e.Val != nil && e.Val.Name == "builtin:copy" && len(e.Args) == 2 {
+						d := e.Args[0]
+						if d.Kind == KOp && d.Name == "slice" && d.Args[0].Key() == out.Key() && isIntConst(d.Args[1], 1) {
+							// the payload fills exactly the space between the quotes: len(out) = len(payload) + 2
+							pl := lf(&Sym{Kind: KOp, Name: "len", Args: []*Sym{e.Args[1]}})
+							if ln.equal(pl.add(lfConst(2), 1)) {
+								body = true
+							}
+						}
+					}
+				}
+				good = first && last && body
+			}
+		}
 		if !good && ok {
 			ok = false
 			c.violated("C20.quote-wrap", cons, fn.Pos(), fmt.Sprintf("MarshalJSON does not wrap the encoded text in exactly one quote at each end (%d appended parts): the output is not a JSON string the decoder accepts", len(parts)), c.witness(t, len(t.Events)-1)...)
